@@ -213,6 +213,34 @@ func TestGovcStandInSubmit(t *testing.T) {
 			}
 		}
 	}
+	// an authentication writer that inspects the body (signing schemes do) while the upload source fails: the failure surfaces
+	{
+		rt := New("example.org", "/api", []string{"http"})
+		sent := 0
+		rt.Transport = govcTransport(func(r *http.Request) (*http.Response, error) {
+			if r.Body != nil {
+				n, err := io.Copy(io.Discard, r.Body)
+				sent = int(n)
+				_ = r.Body.Close()
+				if err != nil {
+					return nil, err
+				}
+			}
+			return &http.Response{StatusCode: 200, Header: http.Header{"Content-Type": {"application/json"}}, Body: io.NopCloser(strings.NewReader("{}")), Request: r}, nil
+		})
+		rt.Consumers = map[string]runtime.Consumer{"application/json": runtime.ConsumerFunc(func(rd io.Reader, v interface{}) error { _, err := io.ReadAll(rd); return err })}
+		rt.Producers = map[string]runtime.Producer{"application/octet-stream": runtime.ByteStreamProducer()}
+		src := &govcFile{Reader: &govcFailAt{data: append([]byte{}, payload...), at: 3000}, name: "stream"}
+		_, err := rt.Submit(&runtime.ClientOperation{ID: "op", Method: "POST", PathPattern: "/up", Schemes: []string{"http"},
+			ProducesMediaTypes: []string{"application/json"}, ConsumesMediaTypes: []string{"application/octet-stream"},
+			AuthInfo: runtime.ClientAuthInfoWriterFunc(func(rq runtime.ClientRequest, _ strfmt.Registry) error { _ = rq.GetBody(); return nil }),
+			Params:   runtime.ClientRequestWriterFunc(func(rq runtime.ClientRequest, _ strfmt.Registry) error { return rq.SetBodyParam(io.ReadCloser(src)) }),
+			Reader:   runtime.ClientResponseReaderFunc(func(runtime.ClientResponse, runtime.Consumer) (interface{}, error) { return "read", nil })})
+		checks++
+		if err == nil {
+			t.Fatalf("GOVC-STANDIN-FAIL a body-reading authentication writer with a source that fails after 3000 bytes: Submit reports success (%d bytes were sent)", sent)
+		}
+	}
 	// a per-operation client overrides only its own call: the runtime's own client serves the calls after it
 	{
 		rt := New("example.org", "/api", []string{"http"})
